@@ -278,12 +278,12 @@ class RangeLiteral(Expression):
     def _make_range(self, start: Any, stop: Any) -> range:
         try:
             start = to_int(start)
-        except ValueError:
+        except (ValueError, TypeError, OverflowError):
             start = 0
 
         try:
             stop = to_int(stop)
-        except ValueError:
+        except (ValueError, TypeError, OverflowError):
             stop = 0
 
         # Descending ranges don't work
